@@ -645,6 +645,8 @@ def run(prog: Program) -> Results:
     for u in sub9.unclassified:
         if "_split_scope_npath" in u:
             res.unclass(u)
+    from sa.rules import poslint
+    poslint.check(prog, res, "R-C12-7")
     res.tables.append("Nix lexical facts (keywords, bare alphabet, string escapes) embedded in sa/rules/c12.py")
     res.assumptions = ["Nix string lexing: \\n \\r \\t are control characters, any other \\x is x, a raw CR is normalised to LF"]
     return res
